@@ -307,6 +307,8 @@ def check(spec):
     )
     sig["str_getitem"] = any(n.get("e") == "acc" and n.get("acc") == "str" and n.get("m") == "getitem" for n in D.walk(ops))
     fin = spec.get("final") or {}
+    if "red" in fin:
+        sig["skipna_false"] = (fin["red"].get("kw") or {}).get("skipna") is False
     if "agg" in fin:
         a, g = fin["agg"], fin["gb"]
         sig["gb_kind"] = a["kind"]
